@@ -75,7 +75,7 @@ def totalRaw (h : PHdr) (length protocol : Nat) (upper : Bytes) : Nat :=
 /-- write the 16-bit value `c` big-endian at byte offset `off` (the checksum field: 6 in the
 SCION/UDP header, 2 in the SCMP header); shorter strings are left as they are -/
 def setWord : Bytes → Nat → Nat → Bytes
-  | a :: b :: rest, 0, c => UInt8.ofNat (c / 256 % 256) :: UInt8.ofNat (c % 256) :: rest
+  | _ :: _ :: rest, 0, c => UInt8.ofNat (c / 256 % 256) :: UInt8.ofNat (c % 256) :: rest
   | l, 0, _ => l
   | [], _, _ => []
   | a :: rest, n+1, c => a :: setWord rest n c
